@@ -38,6 +38,13 @@ def verify_one(task):
         if rep.status == "ok":
             verify.discharge(rep, jobs=djobs)
         obls = [verify._plain(o) for o in rep.obligations]
+        if key.startswith("lemma:canary_") and rep.status == "ok":
+            # a canary is a FALSE claim: it must not be provable (guard against an engine that proves everything)
+            if obls and all(o["status"] == "discharged" for o in obls):
+                return {"key": key, "status": "checker_error", "reason": "canary lemma was proved: the engine is unsound",
+                        "obligations": [], "time": round(time.time() - t0, 2)}
+            obls = [{"name": key.split(":", 1)[1] + "#not-provable", "status": "discharged", "time": 0.0,
+                     "backend": "canary (the false claim was refuted or left undecided, as required)", "kind": "canary"}]
         c = reg.contracts.get(key)
         return {"key": key, "status": rep.status, "reason": rep.reason, "span": rep.span, "digest": rep.digest,
                 "dropped": rep.dropped, "paths": rep.paths, "obligations": obls,
